@@ -74,6 +74,8 @@ func (o pop) term() string {
 		return "PAbort"
 	case "dump":
 		return fmt.Sprintf("(PDump %s)", hx.S(o.k))
+	case "connect":
+		return "PConnect"
 	}
 	return "PClose"
 }
@@ -193,6 +195,12 @@ func pgExecR(cfg pgCfg, ops []pop, faults []bool, record bool) pgRun {
 				}
 			case "abort":
 				store.Abort(ctx)
+			case "connect":
+				// Connect on the already connected store: "If called more than once, consecutive calls
+				// should be ignored" (db.Db)
+				if err := store.Connect(ctx, ""); err != nil {
+					res = pgErr(err)
+				}
 			case "dump":
 				// Dump, Dumper.Next until it yields nil, Dumper.Close
 				d, err := store.Dump(ctx, []byte(op.k))
@@ -291,6 +299,7 @@ func runPg(o opts) error {
 	G := func(k string) pop { return pop{kind: "get", k: k} }
 	start, stop, abort, cls := pop{kind: "start"}, pop{kind: "stop"}, pop{kind: "abort"}, pop{kind: "close"}
 	D := func(k string) pop { return pop{kind: "dump", k: k} }
+	conn := pop{kind: "connect"}
 
 	// ---- corpus: one witness per known finding / repaired defect --------------------------
 	// K-C13-stickymulti: after a completed Start..Stop an acknowledged Put sits in an open,
@@ -340,12 +349,19 @@ func runPg(o opts) error {
 	add(pgCfg{pfx: db.DATATYPE_TEMPLATE, unlock: db.DATATYPE_TEMPLATE, lang: "nor", hasLn: true}, []pop{P("a", "T"), G("a"), D("a"), G("a"), P("a", "U"), G("a")}, nil, "corpus:dump-resets-language")
 	// a session id on an unsessioned type: DecodeKey refuses every row (after the deferred Commit)
 	add(transD, []pop{D("a"), G("a")}, nil, "corpus:dump-decode-error")
+	// connect-again is ignored: no driver call, no effect, inside and outside an explicit transaction, with
+	// faults pending on the calls it must not make (seeded change C13-m13 runs ensureTable there)
+	add(user, []pop{conn, P("a", "1"), conn, G("a")}, nil, "corpus:connect-again")
+	add(user, []pop{conn, P("a", "1"), G("a")}, faultScript(0), "corpus:connect-again-begin-fault")
+	add(user, []pop{P("a", "1"), conn, G("a")}, faultScript(5), "corpus:connect-again-commit-fault")
+	add(user, []pop{start, P("a", "1"), conn, P("b", "1"), stop, conn, D("")}, faultScript(2), "corpus:connect-again-in-tx")
+	add(user, []pop{start, P("a", "1"), conn, stop}, faultScript(4), "corpus:connect-again-in-tx-commit-fault")
 	add(pgCfg{pfx: db.DATATYPE_TEMPLATE, sid: "s"}, []pop{P("a", "1"), G("a")}, nil, "corpus:locked")
 	add(pgCfg{pfx: 0, sid: "s"}, []pop{P("a", "1"), G("a"), start, stop}, nil, "corpus:prefix-unknown")
 	add(pgCfg{pfx: db.DATATYPE_MENU, unlock: db.DATATYPE_MENU, lang: "", hasLn: true}, []pop{P("a", "1"), G("a")}, nil, "corpus:empty-lang-code")
 
 	// ---- exhaustive universe: histories x {no fault, every single, every pair of fault positions} ----
-	alphabet := []pop{P("a", "1"), P("a", "2"), P("b", "1"), G("a"), G("b"), start, stop, abort, D("a")}
+	alphabet := []pop{P("a", "1"), P("a", "2"), P("b", "1"), G("a"), G("b"), start, stop, abort, D("a"), conn}
 	maxLen := 4
 	if o.tier == "thorough" {
 		maxLen = 5
@@ -457,6 +473,8 @@ func runPg(o opts) error {
 				ops = append(ops, P(advKeys[r.Intn(len(advKeys))], []string{"1", "2", "", "33"}[r.Intn(4)]))
 			case x < 12:
 				ops = append(ops, G(advKeys[r.Intn(len(advKeys))]))
+			case x == 12 && r.Intn(2) == 0:
+				ops = append(ops, conn)
 			case x < 13:
 				ops = append(ops, D([]string{"", "a", "b", "zz"}[r.Intn(4)]))
 			case x < 15:
